@@ -284,6 +284,17 @@ class XArray:
         return shape, offs
 
     def __getitem__(self, key):
+        if isinstance(key, XArray) and key.ndim >= 2:
+            # a[index_array]: result shape = index shape + trailing shape
+            step = _prod(self.shape[1:])
+            out = []
+            for k in key.data:
+                k = int(k)
+                if not -self.shape[0] <= k < self.shape[0]:
+                    raise IndexError(f"index {k} out of bounds")
+                k %= self.shape[0]
+                out.extend(self.data[k * step : (k + 1) * step])
+            return XArray(key.shape + self.shape[1:], out, self.dtype)
         shape, offs = self._resolve_index(key)
         if shape == ():
             return self.data[offs[0]]
